@@ -75,7 +75,7 @@ def stream_part(ctx):
         for pol in ("same", "longer", "different", "shorter"):
             for sd in range(1 if ctx.tier == "quick" else 6):
                 for side in "ca":
-                    cmds.append("STREAM %s %d %s %d %s" % (proto, ctx.seed * 100 + sd, pol, 60 if ctx.tier == "quick" else 400, side))
+                    cmds.append("STREAM %s %d %s %d %s" % (proto, ctx.vseed * 100 + sd, pol, 60 if ctx.tier == "quick" else 400, side))
     rc, out, err = sysattr.run(exe, cmds, ctx, timeout=1500)
     ctx.traces += 1
     if rc != 0 or len(out) != len(cmds):
